@@ -143,3 +143,8 @@ __gmp_default_free (void *blk_ptr, size_t blk_size)
 #endif
   free (blk_ptr);
 }
+
+#ifdef MPIR_VERIF
+/* set by the verification harness; see verif-hook.h */
+void (*__mpir_verif_ev) (const char *tag, long a, long b, long c, long d) = 0;
+#endif
